@@ -11,6 +11,8 @@
 (*   indent    2 / 4 / 1 (tab: tabs)   comments  # comments between and    *)
 (*   blanks    blank lines, trailing spaces       after clauses            *)
 (*   breaks    line breaks inside lists, filters and or-lines              *)
+(*   sep       the blank between tokens: one space / a tab / two spaces    *)
+(*   crlf      lines end with CR LF                                        *)
 (*   tq        type block written as Resources.*[ Type == 'X' ] { .. }     *)
 (*   mix       every token occurrence chooses its own synonym (seed)       *)
 (* The specification's meaning of a program (Denote) is a function of the  *)
@@ -22,10 +24,10 @@
 EXTENDS Integers, Sequences, FiniteSets, TLC, Json
 
 Canon == [upper |-> FALSE, or |-> 0, not |-> 0, assign |-> FALSE, single |-> FALSE, dot |-> FALSE,
-          this |-> FALSE, indent |-> 2, tab |-> FALSE, comments |-> FALSE, blanks |-> FALSE, breaks |-> FALSE, tq |-> FALSE]
+          this |-> FALSE, indent |-> 2, tab |-> FALSE, comments |-> FALSE, blanks |-> FALSE, breaks |-> FALSE, sep |-> 0, crlf |-> FALSE, tq |-> FALSE]
 
 Space == [upper : BOOLEAN, or : 0 .. 2, not : 0 .. 2, assign : BOOLEAN, single : BOOLEAN, dot : BOOLEAN,
-          this : BOOLEAN, indent : {1, 2, 4}, tab : BOOLEAN, comments : BOOLEAN, blanks : BOOLEAN, breaks : BOOLEAN, tq : BOOLEAN]
+          this : BOOLEAN, indent : {1, 2, 4}, tab : BOOLEAN, comments : BOOLEAN, blanks : BOOLEAN, breaks : BOOLEAN, sep : 0 .. 2, crlf : BOOLEAN, tq : BOOLEAN]
 
 Classes == DOMAIN Canon
 Differs(s) == {c \in Classes : s[c] # Canon[c]}
